@@ -143,7 +143,7 @@ class ProjCtx(JobCtx):
     def x_open(self, interp, loc, mode="r", *a, **k):
         ex = interp.ex
         if mode != "rb" or a or k:
-            raise Unsupported(f"open(..., {mode!r})")
+            return super().x_open(interp, loc, mode, *a, **k)
         if isinstance(loc, LIn):
             if not ex.decide(z3.And(self.fs.dirs[JD.mk(loc.p, loc.i)], Node.is_File(self.fs.node(loc))), "open:file-present"):
                 raise self.enoent()
